@@ -207,6 +207,29 @@ my_fileset_reload(struct my_fileset *fs)
 	      sizeof(void *),
 	      cmp_fileset_entry);
 
+	/*
+	 * A path named more than once in the setfile is a single entry.
+	 * Otherwise the duplicates end up sharing one loaded pointer, which
+	 * is then unloaded once per duplicate.
+	 */
+	size_t n_uniq = 0;
+	for (size_t i = 0; i < entry_vec_size(new_entries); i++) {
+		ent = entry_vec_value(new_entries, i);
+		if (n_uniq > 0) {
+			struct fileset_entry *prev;
+			prev = entry_vec_value(new_entries, n_uniq - 1);
+			if (strcmp(prev->fname, ent->fname) == 0) {
+				if (ent->ptr != prev->ptr && fs->unload)
+					fs->unload(fs, ent->fname, ent->ptr);
+				free(ent->fname);
+				free(ent);
+				continue;
+			}
+		}
+		entry_vec_data(new_entries)[n_uniq++] = ent;
+	}
+	entry_vec_clip(new_entries, n_uniq);
+
 	for (size_t i = 0; i < entry_vec_size(fs->entries); i++) {
 		ent = entry_vec_value(fs->entries, i);
 		assert(ent != NULL);
